@@ -141,6 +141,12 @@ def load_known(prop: str) -> tuple[list[dict], list[str]]:
     return known, fixed
 
 
+def new_findings(ctx) -> list:
+    """Findings not listed in known_findings.txt."""
+    known, _ = load_known(ctx.prop)
+    return [f for f in ctx.findings if not any(k['rule'] == f.rule and k['key'] == f'{f.where}::{f.key}' for k in known)]
+
+
 def finish(ctx: Context, started: float, seed: int, explanation: str, assumptions: list[str], extra: dict) -> int:
     """Write evidence, print the verdict lines, return the exit code."""
     known, fixed = load_known(ctx.prop)
